@@ -42,6 +42,14 @@ struct KitState {
 
 thread_local! {
     static KIT: RefCell<Option<KitState>> = RefCell::new(None);
+    /// io_uring scenarios: hide IORING_FEAT_SINGLE_MMAP from the code (it then maps the completion ring separately)
+    static HIDE_SINGLE_MMAP: std::cell::Cell<bool> = std::cell::Cell::new(false);
+}
+
+/// From now on a successful `io_uring_setup` reports no IORING_FEAT_SINGLE_MMAP to the code (the kernel still
+/// serves the separate completion-ring mapping).  Only the C12 io_uring scenarios switch this on.
+pub fn hide_single_mmap(on: bool) {
+    HIDE_SINGLE_MMAP.with(|h| h.set(on));
 }
 
 pub unsafe fn raw(n: usize, a: [usize; 6]) -> usize {
@@ -139,6 +147,10 @@ fn handler(n: usize, a: [usize; 6], _nargs: u8) -> Option<usize> {
             }
             None => (unsafe { raw(n, a) }, false),
         };
+        if n == sc::nr::IO_URING_SETUP && !forced && !is_err(ret) && HIDE_SINGLE_MMAP.with(|h| h.get()) {
+            // struct io_uring_params: `features` is the 6th u32; bit 0 = IORING_FEAT_SINGLE_MMAP
+            unsafe { *(a[1] as *mut u32).add(5) &= !1u32 };
+        }
         let is_fork = n == sc::nr::FORK || n == sc::nr::VFORK || n == sc::nr::CLONE;
         if is_fork && !forced && ret == 0 {
             // we are the new process: its calls are counted from 0, its records go to the pipe
